@@ -304,6 +304,7 @@ func init() {
 			{Scenario: "peers", Stratum: "backlog", Quick: 6, Thorough: 200, PerJob: 1},
 			{Scenario: "peers", Stratum: "oob", Quick: 150, Thorough: 5000, PerJob: 4},
 			{Scenario: "peers", Stratum: "reconnect-fec", Quick: 150, Thorough: 1500, PerJob: 4},
+			{Scenario: "peers", Stratum: "close-race", Quick: 300, Thorough: 8000, PerJob: 4},
 			{Scenario: "xfer", Stratum: "", Quick: 150, Thorough: 4000, PerJob: 8},
 		},
 		QuickBudget: 80 * time.Second, ThoroughBudget: 28 * time.Minute, PerRunTimeout: 240 * time.Second,
